@@ -1,9 +1,117 @@
 (* C10 - libavoid nudging: shared paths are separated without moving endpoints.
-   Only statements closed by `exact`; proofs live in Avoid/Nudge.v (region model) and Avoid/NudgeScene.v (scene checker). *)
-From Coq Require Import QArith List.
-From Adapt Require Import Num.Qaux Avoid.NudgeScene.
+   Only statements closed by `exact`; proofs live in Avoid/Nudge.v (region model) and Avoid/NudgeScene.v (scene checker).
+   The VPSC solver is a parameter of the region model; `solver_contract` is property C01's statement. *)
+From Coq Require Import QArith List Bool ZArith.
+From Adapt Require Import Num.Qaux Vpsc.VpscSpec Vpsc.Feas Avoid.NudgeModel Avoid.Nudge Avoid.NudgeScene.
+Import ListNotations.
 Local Open Scope Q_scope.
+
+Definition solver_contract (solver : nat -> list nvar -> list con -> list bool -> list Q * list bool) : Prop :=
+  forall k vs cs fl,
+    length (fst (solver k vs cs fl)) = length vs /\
+    forall j c, nth_error cs j = Some c -> nth_error (snd (solver k vs cs fl)) j = Some false ->
+      within (map tovar vs) (place_of (fst (solver k vs cs fl))) TOL10 c.
+
+Theorem C10_nudge_gen_wf R :
+  let g := gen R in
+  (forall c, In c (gcs g) -> (cl c < length (gvs g))%nat /\ (cr c < length (gvs g))%nat /\ (gap c == 0 \/ gap c = rbase R)) /\
+  (forall i, (i < length (rsegs R))%nat ->
+      nth_error (gvs g) (seg_var g i) = Some (create_var (rnfs R) (runify R) (seg_of R i))) /\
+  (runify R = false -> forall i, (i < length (rsegs R))%nat -> sfixed (seg_of R i) = false ->
+      (- CHANNEL_MAX < smin (seg_of R i) ->
+         exists l, In (mkcon l (seg_var g i) 0 false) (gcs g) /\
+                   nth_error (gvs g) l = Some (mknv channelLeftID (smin (seg_of R i)) fixedWeight)) /\
+      (smax (seg_of R i) < CHANNEL_MAX ->
+         exists r, In (mkcon (seg_var g i) r 0 false) (gcs g) /\
+                   nth_error (gvs g) r = Some (mknv channelRightID (smax (seg_of R i)) fixedWeight))) /\
+  (forall i, (i < length (rsegs R))%nat ->
+      (sfixed (seg_of R i) = true -> szigzag (seg_of R i) = false \/ (rnfs R = true /\ sfinal (seg_of R i) = true) ->
+         forall v, nth_error (gvs g) (seg_var g i) = Some v -> ~ vwt v == freeWeight) /\
+      (rnfs R = true -> sfinal (seg_of R i) = true ->
+         forall v, nth_error (gvs g) (seg_var g i) = Some v -> ~ vwt v == freeWeight)).
+Proof. exact (nudge_gen_wf R). Qed.
+Print Assumptions C10_nudge_gen_wf.
+
+Theorem C10_nudge_satisfied_post solver fuel R o :
+  solver_contract solver ->
+  nudge_region solver fuel R = NOk o -> o_sat o = true ->
+  let g := gen R in
+  (forall j c, nth_error (o_cs o) j = Some c -> nth_error (o_flags o) j = Some false ->
+      nth (cl c) (o_xs o) 0 + gap c <= nth (cr c) (o_xs o) 0 + TOL10 /\
+      (ceq c = true -> nth (cr c) (o_xs o) 0 <= nth (cl c) (o_xs o) 0 + gap c + TOL10)) /\
+  (runify R = false ->
+      Forall2 (gap_rel (rbase R) (o_sep o)) (gcs g) (o_cs o) /\ (o_sep o = rbase R \/ SAT_TOL < o_sep o)) /\
+  (forall i v, nth_error (gvs g) i = Some v -> vid v <> freeSegmentID -> Qabs' (nth i (o_xs o) 0 - vdes v) <= SAT_TOL) /\
+  length (o_xs o) = length (gvs g) /\ o_pos o = written R g (o_xs o).
+Proof. exact (fun Hc => nudge_satisfied_post solver Hc fuel R o). Qed.
+Print Assumptions C10_nudge_satisfied_post.
+
+Theorem C10_nudge_channel_post solver fuel R o i :
+  solver_contract solver ->
+  nudge_region solver fuel R = NOk o -> o_sat o = true -> runify R = false ->
+  (i < length (rsegs R))%nat -> sfixed (seg_of R i) = false ->
+  let g := gen R in let s := seg_of R i in let x := nth (seg_var g i) (o_xs o) 0 in
+  (- CHANNEL_MAX < smin s ->
+     exists k c, nth_error (o_cs o) k = Some c /\ cr c = seg_var g i /\ gap c == 0 /\
+       nth_error (gvs g) (cl c) = Some (mknv channelLeftID (smin s) fixedWeight) /\
+       (nth_error (o_flags o) k = Some false -> smin s - SAT_TOL - TOL10 <= x)) /\
+  (smax s < CHANNEL_MAX ->
+     exists k c, nth_error (o_cs o) k = Some c /\ cl c = seg_var g i /\ gap c == 0 /\
+       nth_error (gvs g) (cr c) = Some (mknv channelRightID (smax s) fixedWeight) /\
+       (nth_error (o_flags o) k = Some false -> x <= smax s + SAT_TOL + TOL10)).
+Proof. exact (fun Hc => nudge_channel_post solver Hc fuel R o i). Qed.
+Print Assumptions C10_nudge_channel_post.
+
+Theorem C10_written_within_limits s x :
+  (sfixed s = true -> new_pos s x = spos s) /\
+  (sfixed s = false -> smin s <= smax s -> smin s <= new_pos s x /\ new_pos s x <= smax s) /\
+  (forall d, sfixed s = false -> 0 <= d -> smin s - d <= x -> x <= smax s + d -> Qabs' (new_pos s x - x) <= d).
+Proof. exact (conj (new_pos_fixed s x) (conj (new_pos_within s x) (new_pos_close s x))). Qed.
+Print Assumptions C10_written_within_limits.
+
+Theorem C10_nudge_unsatisfied_noop solver fuel R o :
+  nudge_region solver fuel R = NOk o -> o_sat o = false -> o_pos o = map spos (rsegs R).
+Proof. exact (nudge_unsatisfied_noop solver fuel R o). Qed.
+Print Assumptions C10_nudge_unsatisfied_noop.
+
+Theorem C10_nudge_no_new_segments dim v idx route :
+  length (write_points dim route idx v) = length route /\
+  forall k p, nth_error route k = Some p ->
+    exists p', nth_error (write_points dim route idx v) k = Some p' /\ other_coord dim p' = other_coord dim p /\
+               (~ In k idx -> p' = p).
+Proof. exact (nudge_no_new_segments dim v idx route). Qed.
+Print Assumptions C10_nudge_no_new_segments.
+
+Theorem C10_model solver fuel R o i j :
+  solver_contract solver ->
+  nudge_region solver fuel R = NOk o -> o_sat o = true -> runify R = false ->
+  (j < i)%nat -> (i < length (rsegs R))%nat ->
+  r_ov (rel_of R i j) = true -> (sfixed (seg_of R i) = false \/ sfixed (seg_of R j) = false) ->
+  r_sa (rel_of R i j) = false -> r_ca (rel_of R i j) = false -> (rnsp R = true \/ r_sh (rel_of R i j) = false) ->
+  0 < rbase R ->
+  let g := gen R in
+  exists k c, nth_error (o_cs o) k = Some c /\ cl c = seg_var g j /\ cr c = seg_var g i /\ ceq c = false /\
+    o_sep o <= gap c /\ gap c <= rbase R /\ (o_sep o = rbase R \/ SAT_TOL < o_sep o) /\
+    (nth_error (o_flags o) k = Some false ->
+       nth (seg_var g j) (o_xs o) 0 + o_sep o <= nth (seg_var g i) (o_xs o) 0 + TOL10).
+Proof. exact (fun Hc => Nudge.C10_model solver Hc fuel R o i j). Qed.
+Print Assumptions C10_model.
+
+Theorem C10_region_checker_sound tol R g sat sep cs xs pos :
+  nudge_region_ok tol R g sat sep cs xs pos = true ->
+  if sat then region_post tol R g sep cs xs pos
+  else forall i s w, nth_error (rsegs R) i = Some s -> nth_error pos i = Some w -> w == spos s.
+Proof. exact (nudge_region_ok_sound tol R g sat sep cs xs pos). Qed.
+Print Assumptions C10_region_checker_sound.
 
 Theorem C10_scene_checker_sound tol dist boxes cs : scene_ok tol dist boxes cs = true -> scene_spec tol dist boxes cs.
 Proof. exact (scene_ok_sound tol dist boxes cs). Qed.
 Print Assumptions C10_scene_checker_sound.
+
+(* the `satisfied` flag does not imply the constraints: a model run whose region is satisfied and written back while a
+   gap constraint (flagged unsatisfiable by the solver, which nudgeOrthogonalRoutes never reads) is violated *)
+Theorem C10_satisfied_without_flags_refuted :
+  exists solver R o, nudge_region solver 20 R = NOk o /\ o_sat o = true /\
+    nudge_region_ok 0 R (gen R) true (o_sep o) (o_cs o) (o_xs o) (o_pos o) = false.
+Proof. exact satisfied_without_flags_refuted. Qed.
+Print Assumptions C10_satisfied_without_flags_refuted.
